@@ -830,7 +830,7 @@ pub fn run(rep: &mut Report) {
                        leaf into_iter/drain; every transition checks the successor's reveal and Merge::merge / merge_node return values; \
                        every ordered pair checks partial_cmp and == against set inclusion/equality, the DeepJoin bimorphism against a \
                        nested-loop equi-join on the key columns and GhtCartesianProductBimorphism (by reference and through GhtBimorphism) \
-                       against the cross product. Thorough adds the COLT forest (insert + ColtGet::get paths) against a multiset model."
+                       against the cross product. The COLT forest ColtType!(u8,u8,u8) (BFS depth 3 quick / 4 thorough over 8 inserts + 14 ColtGet::get paths) is checked against a multiset model: row conservation, prefix lookups through get paths, per-trie well-formedness."
         .into();
     rep.assume("row domain {0,1}^3 (value 2 used only for negative lookups); leaf storage VariadicHashSetStd (Merge/PartialOrd require a VariadicSet)");
     rep.assume("HashMap/RandomState iteration orders are whatever the process draws; every comparison is order-insensitive");
@@ -855,8 +855,11 @@ pub fn run(rep: &mut Report) {
     shape!(TB, 1);
     shape!(TC, 2);
     shape!(TD, 3);
-    if thorough {
-        let acc = crate::colt::run(4, threads);
+    {
+        // COLT forest: BFS depth 3 (quick) / 4 (thorough) over the full alphabet of 8 inserts + 14 get paths
+        let colt_depth = if thorough { 4 } else { 3 };
+        rep.bound("colt_bfs_depth", colt_depth);
+        let acc = crate::colt::run(4, colt_depth);
         all.merge(acc.cl.clone());
         for (k, v) in &acc.counters {
             counters.insert(k.clone(), *v);
